@@ -68,3 +68,8 @@ Example c14_nonvacuous :
   map (fun c => match c with LWrite1 p => blen p | _ => -1 end) (fst (match head_write (MReader r) with Some x => x | None => ([], RErr) end))
   = [1000; 1024; 475; 1] /\ fst (read_bytes (mkScript [[1%N]; []] (FDataEOF [2%N]))) = [1%N; 2%N].
 Proof. vm_compute. split; reflexivity. Qed.
+
+(* ReadFrom's streaming chunk is the constant in the source NOW (Gen/Consts.v) *)
+From GN Require Import Gen.Consts Proof.Consts_ok.
+Theorem c14_read_chunk_is_source : read_chunk_src = 1024%N.
+Proof. exact read_chunk_is_1024. Qed.
